@@ -188,6 +188,8 @@ def run_case(c, box, rnd, counter):
 
 
 if __name__ == "__main__":
+    import socket as _socket
+    _socket.setdefaulttimeout(10)        # a peer (or a changed library) that never answers ends a call with an error, not a hang
     cases = json.load(open(sys.argv[2]))
     out, seed, rundir = sys.argv[3], int(sys.argv[4]), sys.argv[5]
     rnd = random.Random(seed)
@@ -196,7 +198,13 @@ if __name__ == "__main__":
         key = (c["leg"], c["vs"], c["jc"])
         if key not in boxes:
             boxes[key] = ServerBox(c["leg"], c["vs"], c["jc"], rundir, seed * 100 + len(boxes))
-        recs.append(run_case(c, boxes[key], rnd, counter))
+        box = boxes[key]
+        if getattr(box, "timeouts", 0) >= 2:
+            continue                     # this server has stopped answering: two recorded time-outs say it all
+        rec = run_case(c, box, rnd, counter)
+        if "timed out" in rec["outcome"]["exc"] or "Timeout" in rec["outcome"]["exc"]:
+            box.timeouts = getattr(box, "timeouts", 0) + 1
+        recs.append(rec)
     for b in boxes.values():
         b.close()
     json.dump(recs, open(out, "w"))
